@@ -8,6 +8,7 @@ import (
 	"fmt"
 	"math"
 	"strings"
+	"sync"
 	"time"
 
 	"github.com/google/mtail/internal/logline"
@@ -16,6 +17,7 @@ import (
 	"github.com/google/mtail/internal/runtime/code"
 	"github.com/google/mtail/internal/runtime/compiler"
 	"github.com/google/mtail/internal/runtime/vm"
+	"github.com/google/mtail/internal/verif/vh"
 )
 
 // LV is one projected label set of a metric.
@@ -108,7 +110,86 @@ func Compile(name, src string, optimise bool) (c Compiled) {
 		c.Errors = err.Error()
 	}
 	c.Obj = obj
+	reuseCheck(name, src, optimise, opts, c)
 	return
+}
+
+// The program loader keeps ONE compiler.Compiler for every program it ever loads, so compiling a source on a
+// compiler that has already compiled (and rejected) other sources must give what a fresh compiler gives.
+// reuseCheck compiles every source a second time on such a long-lived compiler; a difference that is reproduced
+// from a clean start by the two-step sequence (last rejected source, this source) is printed as a
+// "compiler_reuse" record, which every check that compiles programs reports.
+var (
+	reuseMu     sync.Mutex
+	reused      = map[bool]*compiler.Compiler{}
+	lastRefused = map[bool][2]string{} // name, source last rejected by the long-lived compiler
+	reuseSeen   = map[string]bool{}
+)
+
+func outcome(obj *code.Object, err error) string {
+	var b strings.Builder
+	if err != nil {
+		b.WriteString("ERR " + err.Error() + "\n")
+	}
+	if obj != nil {
+		for _, i := range obj.Program {
+			fmt.Fprintf(&b, "%s %v|", i.Opcode, i.Operand)
+		}
+		fmt.Fprintf(&b, "#%q#", obj.Strings)
+		for _, r := range obj.Regexps {
+			b.WriteString(r.String() + "|")
+		}
+		for _, m := range obj.Metrics {
+			fmt.Fprintf(&b, "%s %v %v %v %v|", m.Name, m.Kind, m.Type, m.Keys, m.Hidden)
+		}
+	}
+	return b.String()
+}
+
+func compileOn(cc *compiler.Compiler, name, src string) (out string) {
+	defer func() {
+		if r := recover(); r != nil {
+			out = "PANIC " + fmt.Sprint(r)
+		}
+	}()
+	return outcome(cc.Compile(name, strings.NewReader(src)))
+}
+
+func reuseCheck(name, src string, optimise bool, opts []compiler.Option, fresh Compiled) {
+	reuseMu.Lock()
+	defer reuseMu.Unlock()
+	cc := reused[optimise]
+	if cc == nil {
+		cc, _ = compiler.New(opts...)
+		reused[optimise] = cc
+	}
+	var ferr error
+	if fresh.Errors != "" {
+		ferr = fmt.Errorf("%s", fresh.Errors)
+	}
+	want := outcome(fresh.Obj, ferr)
+	got := compileOn(cc, name, src)
+	prev := lastRefused[optimise]
+	if strings.HasPrefix(got, "ERR ") || strings.HasPrefix(got, "PANIC ") {
+		lastRefused[optimise] = [2]string{name, src}
+	}
+	if got == want || reuseSeen[prev[1]+"\x00"+src] {
+		return
+	}
+	reuseSeen[prev[1]+"\x00"+src] = true
+	// from a clean start: the last refused source, then this one
+	c2, _ := compiler.New(opts...)
+	rec := map[string]any{"optimise": optimise, "name": name, "source": src, "fresh": want, "reused": got, "prev_name": prev[0], "prev_source": prev[1]}
+	if prev[1] != "" {
+		_ = compileOn(c2, prev[0], prev[1])
+		again := compileOn(c2, name, src)
+		c3, _ := compiler.New(opts...)
+		rec["reproduced"] = again != compileOn(c3, name, src)
+		rec["reused_again"] = again
+	} else {
+		rec["reproduced"] = false
+	}
+	vh.Out(map[string]any{"compiler_reuse": rec})
 }
 
 func rtErrors(name string) int64 {
